@@ -167,6 +167,44 @@ theorem no_confirmation_without_completer (proc : Tid → Pid) (sched : List (Ti
   let h := (inv_run proc sched).2.1.cf2 hl
   ⟨h.1, h.2.1⟩
 
+/-- CONCURRENT COMPLETERS, whatever processes they run in, are serialised by the shared confirmation lock: at most one
+thread is between `put(True)` and the release of the lock -/
+theorem completers_are_serialised (proc : Tid → Pid) (sched : List (Tid × Lab)) (t u : Tid)
+    (ht : t ≠ workerTid) (hu : u ≠ workerTid)
+    (h1 : holdsConf ((run proc {} sched).pc t) = true) (h2 : holdsConf ((run proc {} sched).pc u) = true) : t = u := by
+  have hc := (inv_run proc sched).2.1
+  have a := hc.k1 t ht h1
+  have b := hc.k1 u hu h2
+  rw [a] at b
+  exact Option.some.inj b
+
+/-- …and a set event always belongs to the one completer that holds the lock: it is waiting for it (`c2`) or has just
+been woken by it (`c3`), and the worker has already handled everything put before that completer's item – so the
+answer to one process's request can never release another process's `complete()` -/
+theorem event_belongs_to_the_lock_holder (proc : Tid → Pid) (sched : List (Tid × Lab))
+    (he : (run proc {} sched).event = true) :
+    ∃ t k, t ≠ workerTid ∧ (run proc {} sched).confLock = some t ∧
+      ((run proc {} sched).pc t = .c2 k ∨ (run proc {} sched).pc t = .c3 k) ∧
+      k ≤ (run proc {} sched).handled.length := by
+  have hc := (inv_run proc sched).2.1
+  cases hl : (run proc {} sched).confLock with
+  | none => have := (hc.cf2 hl).2.1; rw [he] at this; cases this
+  | some t =>
+    obtain ⟨ht, hh⟩ := hc.k2 t hl
+    have hi := hc.cf1 t ht hh
+    cases hp : (run proc {} sched).pc t <;> rw [hp] at hh hi <;> simp [holdsConf] at hh
+    · simp [confInv, he] at hi
+    · rename_i k
+      simp only [confInv, he] at hi
+      rcases hi with h | h | h
+      · simp at h
+      · simp at h
+      · exact ⟨t, k, ht, rfl, Or.inl hp, h.2.2.2⟩
+    · rename_i k
+      simp only [confInv] at hi
+      exact ⟨t, k, ht, rfl, Or.inr hp, hi.2.2.2⟩
+    · simp [confInv, he] at hi
+
 /-- OWNER REMOVE: when the owner's stop() has returned, the worker is done with everything put before the sentinel
 (each such message written, or its own error reported), it has left its loop and the sink is stopped -/
 theorem owner_remove_drains (proc : Tid → Pid) (sched : List (Tid × Lab))
@@ -413,44 +451,73 @@ theorem exit_drain_registered_unconditionally : Queue.ShapeGen.atexitRemoveUncon
 
 /-! ### coroutine sinks (`Queue/Async.lean`) -/
 
-/-- `await logger.complete()` waits for the tasks of its loop: whenever a complete() on loop `l` has returned, every
-task created on `l` before its snapshot – i.e. for every message accepted before the call – has finished.  For every
-schedule of writes, event-loop progress and concurrent completers on any number of loops. -/
+/-- AWAITING the object returned by `logger.complete()` waits for the tasks of the loop it is awaited on – wherever and
+whenever `complete()` itself was CALLED (another thread, an executor, a coroutine of another loop, before any loop ran:
+`startComplete callLoop` and `beginAwait l` are separate transitions): whenever such an await on loop `l` has returned,
+every task created on `l` before the snapshot – i.e. for every message accepted before the call – has finished.  For
+every schedule of writes, event-loop progress and concurrent completers on any number of loops; the model is
+instantiated with WHERE THE SOURCE READS THE RUNNING LOOP (`asyncLoopReadAtAwait`, regenerated). -/
 theorem async_complete_waits_for_its_loop (sf : Bool) (sched : List (Async.Tid × Async.Lab)) (l n : Nat)
-    (h : (l, n) ∈ (Async.run sf {} sched).returned) :
-    ∀ i, i < n → ((Async.run sf {} sched).task i).loop = l → ((Async.run sf {} sched).task i).done = true :=
-  ((Async.inv_run sf sched).ret l n h).2
+    (h : (l, n) ∈ (Async.run sf Queue.ShapeGen.asyncLoopReadAtAwait {} sched).returned) :
+    ∀ i, i < n → ((Async.run sf Queue.ShapeGen.asyncLoopReadAtAwait {} sched).task i).loop = l →
+      ((Async.run sf Queue.ShapeGen.asyncLoopReadAtAwait {} sched).task i).done = true := by
+  have e : Queue.ShapeGen.asyncLoopReadAtAwait = true := by decide
+  rw [e] at h ⊢
+  exact ((Async.inv_run sf sched).ret l n h).2
 
 /-- …and it never waits for another loop's task: the step over a foreign task is always enabled -/
-theorem async_complete_never_waits_for_foreign_loop (s : Async.St) (t : Async.Tid) (l n pos : Nat)
-    (hq : s.pc t = .c l n pos) (hp : pos < n) (hf : (s.task pos).loop ≠ l) :
-    (Async.step true s t .await).isSome = true := by
+theorem async_complete_never_waits_for_foreign_loop (la : Bool) (s : Async.St) (t : Async.Tid) (l n pos : Nat)
+    (f : Option Nat) (hq : s.pc t = .c l f n pos) (hp : pos < n) (hf : some (s.task pos).loop ≠ f) :
+    (Async.step true la s t .await).isSome = true := by
   simp [Async.step, hq, hp, hf]
 
 /-- without the foreign-loop test a completer can be suspended on a task its own loop will never run -/
 theorem async_foreign_wait_witness :
-    let s := Async.run false {} [(1, .write 7), (2, .startComplete 0)]
-    Async.step false s 2 .await = none ∧ Async.step false s 2 .finish = none ∧
-    (Async.step true (Async.run true {} [(1, .write 7), (2, .startComplete 0)]) 2 .await).isSome = true := by
+    let sched : List (Async.Tid × Async.Lab) := [(1, .write 7), (2, .startComplete none), (2, .beginAwait 0)]
+    let s := Async.run false true {} sched
+    Async.step false true s 2 .await = none ∧ Async.step false true s 2 .finish = none ∧
+    (Async.step true true (Async.run true true {} sched) 2 .await).isSome = true := by
   decide
 
-/-- non-vacuity: two loops, a completer that waits for its own task and skips the foreign one -/
+/-- reading the running loop when `complete()` is CALLED instead (filtering the snapshot at collection time) is refuted:
+complete() called where no loop runs (a helper thread, an executor) or in a coroutine of another loop, its result
+awaited on loop 0 – the await returns although the task of a message accepted before the call has not run on loop 0 -/
+theorem async_loop_read_at_call_witness :
+    let s1 := Async.run true false {} [(1, .write 0), (2, .startComplete none), (2, .beginAwait 0), (2, .await), (2, .finish)]
+    let s2 := Async.run true false {} [(1, .write 0), (2, .startComplete (some 5)), (2, .beginAwait 0), (2, .await), (2, .finish)]
+    let s3 := Async.run true true {} [(1, .write 0), (2, .startComplete none), (2, .beginAwait 0), (2, .await), (2, .finish)]
+    s1.returned = [(0, 1)] ∧ (s1.task 0).loop = 0 ∧ (s1.task 0).done = false ∧
+    s2.returned = [(0, 1)] ∧ (s2.task 0).done = false ∧
+    s3.returned = [] := by
+  decide
+
+/-- non-vacuity: two loops; complete() called where no loop runs, awaited on loop 0: waits for its own task, skips the foreign one -/
 example :
     let sched : List (Async.Tid × Async.Lab) := [
-      (1, .write 0), (1, .write 7), (2, .startComplete 0), (2, .await),      -- blocked: task 0 not done
+      (1, .write 0), (1, .write 7), (2, .startComplete none), (2, .beginAwait 0), (2, .await),   -- blocked: task 0 not done
       (9, .run 0), (2, .await), (2, .await), (2, .finish)]
-    (Async.run true {} sched).returned = [(0, 2)] ∧ ((Async.run true {} sched).task 1).done = false := by
+    (Async.run true true {} sched).returned = [(0, 2)] ∧ ((Async.run true true {} sched).task 1).done = false := by
   decide
 
-/-- tie G: the snapshot is taken under the handler lock and `_complete_task` skips foreign loops before awaiting -/
+/-- tie G: the snapshot is taken under the handler lock, `_complete_task` skips foreign loops before awaiting, and the
+running loop is read inside `_complete_task` (at await time) while `tasks_to_complete` collects every task unfiltered -/
 theorem async_shape_of_source :
-    Queue.ShapeGen.asyncSnapshotUnderLock = true ∧ Queue.ShapeGen.asyncSkipsForeignLoop = true := by decide
+    Queue.ShapeGen.asyncSnapshotUnderLock = true ∧ Queue.ShapeGen.asyncSkipsForeignLoop = true ∧
+    Queue.ShapeGen.asyncLoopReadAtAwait = true := by decide
 
 /-! ### `enqueue=True` together with a coroutine sink (`Queue/EnqAsync.lean`) -/
 
 /-- tie G (regenerated from `Logger.complete`): for each handler `complete_queue()` is called strictly before
 `tasks_to_complete()`, both under the core lock -/
 theorem complete_order_of_source : Queue.ShapeGen.completeQueueBeforeTasks = true := by decide
+
+/-- tie G (regenerated from `Handler.tasks_to_complete` and `_queued_writer`) for the atomic `snapshot` transition of
+`EnqAsync.step` / `Async.step`: the snapshot takes the lock under which the sink's WRITER runs – the queue lock when the
+handler is enqueued (the worker's `sink.write` is the last statement of its loop body, inside `with <queue lock>`),
+the handler lock otherwise – and a process that does not own the enqueued handler has no tasks to wait for -/
+theorem snapshot_lock_of_source :
+    Queue.ShapeGen.tasksSnapshotLockIsWriters = true ∧ Queue.ShapeGen.tasksOwnerOnly = true ∧
+    Queue.ShapeGen.workerLoop.writeLast = true := by decide
 
 /-- `await logger.complete()` on a handler that is both enqueued and a coroutine sink, with the order of the two calls
 AS READ FROM THE SOURCE: whenever an awaited complete() on loop `l` has returned, the worker is done with every
